@@ -30,9 +30,13 @@
 (*   C15.SetsCoverAddressed           succeeded \/ failed = components behind *)
 (*                                    the inverters set_power was called for  *)
 (*   C15.PVSetpointsWithinBounds      PV: bound <= set-point <= 0             *)
-(* Named deviations of the current code (cause predicates):                  *)
-(*   Dev_PVSucceededPowerFromStaleTarget   PVManager derives succeeded_power  *)
-(*        from self._target_power, which no code path assigns                 *)
+(* Named cause predicates (deviations):                                      *)
+(*   Dev_PVSucceededPowerFromStaleTarget(r)   the reported succeeded_power    *)
+(*        equals what the formula used before /repo 8493bc4 gives             *)
+(*        (self._target_power [- failed_power], _target_power never assigned) *)
+(*        and that is not the distributed power.  The primary model is the    *)
+(*        repaired accounting; the predicate only labels failing records if   *)
+(*        the old behaviour returns.                                          *)
 (*   Dev_DistributionLostPower   the given battery distribution does not      *)
 (*        conserve the request (C01 findings); it cannot break the C15        *)
 (*        clauses, only the auxiliary SucceededIsSucceededSetpoints           *)
@@ -65,7 +69,7 @@ VARIABLES pc,      \* idle -> configured -> requested -> distributed -> waiting 
           ord,     \* order in which the calls are issued (dict order)
           calls,   \* set_power calls issued so far: sequence of [c, p]
           task,    \* inverter -> "none" | "pending" | "ok" | "oor" | "err" | "exc" | "cancelled"
-          target,  \* PVManager._target_power
+          target,  \* PVManager._target_power (assigned in __init__ only; not used for the Result since 8493bc4)
           parsed,  \* [fp, failed, succ] computed by the classification loop
           res,     \* the Result sent
           h        \* emitted case (hidden by VIEW)
@@ -141,8 +145,8 @@ Request(r, o) ==
     /\ cs' = [cs EXCEPT !.req = r, !.out = o] /\ pc' = "requested"
     /\ UNCHANGED <<alloc, rem, ord, calls, task, target, parsed, res>>
 
-\* PVManager.distribute_power up to the call of _set_api_power.  NOTE: self._target_power is
-\* neither read nor written here (it is assigned only in __init__, to zero).
+\* PVManager.distribute_power up to the call of _set_api_power.  self._target_power is neither
+\* read nor written here (it is assigned only in __init__, to zero).
 PVDistribute ==
     /\ pc = "requested" /\ cs.kind = "pv"
     /\ LET w == PVWaterFill(cs.bd, cs.req) IN
@@ -211,11 +215,12 @@ BatResult ==
        THEN [type |-> "PartialFailure", sp |-> distributed - parsed.fp, fp |-> parsed.fp, ex |-> rem,
              succ |-> keys \ parsed.failed, failed |-> parsed.failed]
        ELSE [type |-> "Success", sp |-> distributed, fp |-> 0, ex |-> rem, succ |-> keys, failed |-> {}]
+\* succeeded_power = request.power - remaining_power [- failed_power]   (/repo 8493bc4)
 PVResult ==
     IF parsed.failed # {}
-    THEN [type |-> "PartialFailure", sp |-> target - parsed.fp, fp |-> parsed.fp, ex |-> rem,
+    THEN [type |-> "PartialFailure", sp |-> (cs.req - rem) - parsed.fp, fp |-> parsed.fp, ex |-> rem,
           succ |-> parsed.succ, failed |-> parsed.failed]
-    ELSE [type |-> "Success", sp |-> target, fp |-> 0, ex |-> rem, succ |-> parsed.succ, failed |-> {}]
+    ELSE [type |-> "Success", sp |-> cs.req - rem, fp |-> 0, ex |-> rem, succ |-> parsed.succ, failed |-> {}]
 Send ==
     /\ pc = "parsed"
     /\ res' = IF cs.kind = "bat" THEN BatResult ELSE PVResult
@@ -285,27 +290,31 @@ A_SucceededIsSucceededSetpoints(r, cl) == Near(r.sp, SumOver(SetPoints(cl), OkCa
 A_ConservesRequest(cl, rm, rq) == Near(SumSeq(SetPoints(cl)) + rm, rq)
 
 \* deviations, over the model's own intermediate values
-Dev_PVSucceededPowerFromStaleTarget == cs.kind = "pv" /\ ~Near(target, cs.req - rem)
+\* r = a reported result: its succeeded_power is what `self._target_power [- failed_power]` gives
+\* (Success carries fp = 0) although the stale target is not the power distributed for this request
+Dev_PVSucceededPowerFromStaleTarget(r) ==
+    cs.kind = "pv" /\ Near(r.sp, target - r.fp) /\ ~Near(target, cs.req - rem)
 Dev_DistributionLostPower == cs.kind = "bat" /\ pc \notin {"idle", "configured", "requested"} /\ ~Near(SumSeq(alloc) + rem, cs.req)
 
 CallsO == [k \in DOMAIN calls |-> [c |-> calls[k].c, p |-> calls[k].p, o |-> cs.out[calls[k].c]]]
 Sent == pc = "sent"
 
-SumsToRequested == Sent => (C_SumsToRequested(res, cs.req) \/ Dev_PVSucceededPowerFromStaleTarget)
+SumsToRequested == Sent => C_SumsToRequested(res, cs.req)
 FailedPowerIsFailedSetpoints == Sent => C_FailedPowerIsFailedSetpoints(res, CallsO)
 SetsDisjoint == Sent => C_SetsDisjoint(res)
 SetsCoverAddressed == Sent => C_SetsCoverAddressed(res, CallsO, cs.topo)
 PVSetpointsWithinBounds == cs.kind = "pv" => C_PVSetpointsWithinBounds(CallsO, cs.bd)
 SucceededIsSucceededSetpoints ==
-    Sent => (A_SucceededIsSucceededSetpoints(res, CallsO) \/ Dev_PVSucceededPowerFromStaleTarget \/ Dev_DistributionLostPower)
+    Sent => (A_SucceededIsSucceededSetpoints(res, CallsO) \/ Dev_DistributionLostPower)
 \* design-level sanity of the model itself
 WaterFillExact == (cs.kind = "pv" /\ pc = "requested") => PVWaterFill(cs.bd, cs.req).exact
 WaterFillConserves == (cs.kind = "pv" /\ pc \notin {"idle", "configured", "requested"}) => SumSeq(alloc) + rem = cs.req
 EveryAllocationIsCalled == Sent => {calls[k].c : k \in DOMAIN calls} = DOMAIN alloc /\ Len(calls) = cs.n
 TypeOfResult == Sent => (res.type = "Success" <=> \A k \in DOMAIN CallsO : CallsO[k].o = "ok")
-\* the stale target is the ONLY reason for a PV sum mismatch: with target = distributed the identity holds
-PVFixWouldHold ==
+\* the cause predicate is exact: the pre-8493bc4 formula breaks the identity precisely when it fires
+StaleFormulaIsDetected ==
     (Sent /\ cs.kind = "pv") =>
-        LET fixed == [res EXCEPT !.sp = (cs.req - rem) - res.fp] IN C_SumsToRequested(fixed, cs.req)
-        /\ A_SucceededIsSucceededSetpoints(fixed, CallsO)
+        LET stale == [res EXCEPT !.sp = target - res.fp] IN
+        /\ Dev_PVSucceededPowerFromStaleTarget(stale) <=> ~C_SumsToRequested(stale, cs.req)
+        /\ ~Dev_PVSucceededPowerFromStaleTarget(res)
 =============================================================================
